@@ -23,7 +23,8 @@ IsEv(e)  == l <= Len(Trace) /\ Trace[l].ev = e /\ l' = l + 1
 
 LChanges == [i \in 1..Len(Ev.st.changes) |->
                [kind |-> Ev.st.changes[i].kind, ready |-> Ev.st.changes[i].ready,
-                snaps |-> ToSet(Ev.st.changes[i].snaps), down |-> Ev.st.changes[i].down]]
+                snaps |-> ToSet(Ev.st.changes[i].snaps), down |-> Ev.st.changes[i].down,
+                done |-> ToSet(Ev.st.changes[i].done)]]
 LStatus  == [s \in AllSnaps |-> Ev.st.status[s]]
 
 \* readiness is always taken from the real change list (a change we believe live must really be unready)
@@ -45,7 +46,7 @@ TRequest ==
            specRes == IF Rejected(changes, op, S, from, mutated) THEN "conflict" ELSE "accepted"
            \* lenient successor: what the OBSERVED outcome does to the requested snaps
            obsAfter == IF res # "accepted" THEN changes
-                       ELSE IF op = "refresh-from" THEN [changes EXCEPT ![from].snaps = @ \cup S]
+                       ELSE IF op = "refresh-from" THEN [changes EXCEPT ![from].snaps = @ \cup S, ![from].done = @ \ S]
                        ELSE IF Len(LChanges) = Len(changes) THEN changes      \* refresh-all with nothing to do
                        ELSE Append(changes, IF op = "refresh-all" THEN LChanges[Len(LChanges)] ELSE NewChange(op, S))
        IN /\ res \in {"accepted", "conflict"}
@@ -62,7 +63,7 @@ TRequest ==
 
 TInject ==
     /\ IsEv("Inject")
-    /\ changes' = Append(changes, [kind |-> Ev.args.kind, ready |-> FALSE, snaps |-> ToSet(Ev.args.T), down |-> FALSE])
+    /\ changes' = Append(changes, [kind |-> Ev.args.kind, ready |-> FALSE, snaps |-> ToSet(Ev.args.T), down |-> FALSE, done |-> {}])
     /\ Strict => changes' = LChanges
     /\ ReadyAgrees(changes')
     /\ UNCHANGED status
@@ -77,8 +78,19 @@ TProgress ==
     /\ UNCHANGED status
     /\ mon' = [NoMon EXCEPT !.kind = "progress"]
 
+\* all tasks of change c naming snap s were made ready (Done / Undone / Error / Hold); the change is still unready
+TPartial ==
+    /\ IsEv("Partial")
+    /\ Ev.args.c \in Live(changes)
+    /\ Ev.args.s \in changes[Ev.args.c].snaps
+    /\ changes' = [changes EXCEPT ![Ev.args.c].done = @ \cup {Ev.args.s}]
+    /\ Strict => changes' = LChanges
+    /\ ReadyAgrees(changes')
+    /\ UNCHANGED status
+    /\ mon' = [NoMon EXCEPT !.kind = "partial"]
+
 TInit == changes = <<>> /\ status = [s \in AllSnaps |-> "absent"] /\ mon = NoMon /\ l = 1
-TNext == TReset \/ TRequest \/ TInject \/ TProgress
+TNext == TReset \/ TRequest \/ TInject \/ TProgress \/ TPartial
 
 Accepted == TLCGet("stats").diameter - 1 = Len(Trace)
 =============================================================================
